@@ -87,7 +87,7 @@ macro "fsm_bash" : tactic => `(tactic|
       Conn.onNotification, Conn.onRouteRefresh, Conn.onKaTimer, Conn.onHoldTimer, Conn.onUpdateSent,
       Conn.onDisconnected, Conn.onAdminShutdown, Conn.rearmHold, downLocal, fsmErr, State.code, Peer.cease, Role.other,
       next, S.get, S.set, sees, anyDown, hasDown, hasIdle, outsOf, hasEstablishedOut,
-      confirmed, asOk, ConnOk]))
+      confirmed, asOk, ConnOk, applicable]))
 
 /-- The per-step core of the simulation, in unbundled form. -/
 def StepCore (pc : Cfg) (pa pp : Option Conn) (r : Role) (e : Ev) : Prop :=
@@ -727,5 +727,168 @@ theorem connected_on_free_slot (p : Peer) (r : Role) (b : Bool) (h : p.connectio
   cases r <;> simp [Peer.connection] at h <;>
     simp [Peer.process, Peer.onConnected, Peer.connection, h, Peer.setConn, Peer.state,
       Conn.onConnected]
+
+/-! ### The end-to-end trace property -/
+
+/-- The FSM input an arbiter event amounts to (a wire OPEN is parsed first; a parse error ends the
+    task, which feeds `Disconnected`). -/
+def evInput : Ev → Input
+  | .input i => i
+  | .rawOpen o =>
+      match parseOpen o with
+      | .ok m => .msg (.open m)
+      | .error _ => .disconnected
+
+theorem arbStep_fst (p : Peer) (r : Role) (e : Ev) : (arbStep p r e).1 = (p.process r (evInput e)).1 := by
+  cases e with
+  | input i => rfl
+  | rawOpen o =>
+    simp only [arbStep, evInput]
+    cases parseOpen o <;> rfl
+
+theorem runFrom_append_fst (h1 h2 : List (Role × Ev)) : ∀ p : Peer,
+    (runFrom p (h1 ++ h2)).1 = (runFrom (runFrom p h1).1 h2).1 := by
+  induction h1 with
+  | nil => intro p; rfl
+  | cons x rest ih =>
+    intro p
+    obtain ⟨r, e⟩ := x
+    simp only [List.cons_append, runFrom]
+    exact ih _
+
+/-- State of role `r` after the first `n` events of `h`. -/
+def stateAt (cfg : Cfg) (h : List (Role × Ev)) (r : Role) (n : Nat) : State :=
+  (runFrom (Peer.init cfg) (h.take n)).1.state r
+
+/-- An OPEN this speaker accepts: expected AS; for a wire OPEN also valid hold time and identifier. -/
+def AcceptableOpen (cfg : Cfg) (e : Ev) : Prop :=
+  ∃ m, evInput e = .msg (.open m) ∧ (cfg.expectedAsn = 0 ∨ cfg.expectedAsn = m.asn)
+
+theorem acceptable_rawOpen {cfg : Cfg} {o : RawOpen} (h : AcceptableOpen cfg (.rawOpen o)) :
+    validHold o.hold = true ∧ validId o.rid = true ∧ (cfg.expectedAsn = 0 ∨ cfg.expectedAsn = o.asn) := by
+  obtain ⟨m, hm, ha⟩ := h
+  simp only [evInput] at hm
+  by_cases h1 : o.hold = 1 ∨ o.hold = 2
+  · simp [parseOpen, h1] at hm
+  · by_cases h2 : badRouterId o.rid = true
+    · simp [parseOpen, h1, h2] at hm
+    · simp [parseOpen, h1, h2] at hm
+      subst hm
+      refine ⟨by simp [validHold]; omega, ?_, ha⟩
+      rw [badRouterId_iff] at h2
+      simpa using h2
+
+/-- One step of the history, seen at position `n`. -/
+theorem stateAt_succ (cfg : Cfg) (h : List (Role × Ev)) (r : Role) (n : Nat) (hn : n < h.length) :
+    stateAt cfg h r (n + 1) =
+      ((runFrom (Peer.init cfg) (h.take n)).1.process h[n].1 (evInput h[n].2)).1.state r := by
+  unfold stateAt
+  rw [List.take_succ_eq_append_getElem hn, runFrom_append_fst]
+  simp only [runFrom, arbStep_fst]
+
+theorem stateAt_step (cfg : Cfg) (h : List (Role × Ev)) (r : Role) (n : Nat) (hn : n < h.length) :
+    (stateAt cfg h r (n + 1) = .established →
+        stateAt cfg h r n = .established ∨
+        (stateAt cfg h r n = .openConfirm ∧ h[n].1 = r ∧ evInput h[n].2 = .msg .keepalive)) ∧
+    (stateAt cfg h r (n + 1) = .openConfirm →
+        stateAt cfg h r n = .openConfirm ∨
+        (stateAt cfg h r n = .openSent ∧ h[n].1 = r ∧ AcceptableOpen cfg h[n].2)) ∧
+    (stateAt cfg h r (n + 1) = .openSent →
+        stateAt cfg h r n = .openSent ∨
+        (stateAt cfg h r n = .idle ∧ h[n].1 = r ∧ ∃ b, evInput h[n].2 = .connected b)) := by
+  have hi := reachable_inv cfg (h.take n)
+  rw [stateAt_succ cfg h r n hn]
+  refine ⟨fun he => ?_, fun he => ?_, fun he => ?_⟩
+  · rcases inv_established_via cfg _ hi _ _ _ he with h1 | ⟨h1, h2, h3⟩
+    · exact Or.inl h1
+    · exact Or.inr ⟨h1 ▸ h2, h1.symm, h3⟩
+  · rcases inv_openConfirm_via cfg _ hi _ _ _ he with h1 | ⟨h1, h2, o, h3, h4⟩
+    · exact Or.inl h1
+    · refine Or.inr ⟨h1 ▸ h2, h1.symm, o, h3, ?_⟩
+      rw [hi.cfgEq] at h4; exact h4
+  · rcases inv_openSent_via cfg _ hi _ _ _ he with h1 | ⟨h1, h2, h3⟩
+    · exact Or.inl h1
+    · exact Or.inr ⟨h1 ▸ h2, h1.symm, h3⟩
+
+/-- The three phases a role went through, located in the history: `connected` at position `i`
+    (from Idle), then OpenSent until an acceptable OPEN at `j`, then OpenConfirm until the
+    KEEPALIVE at `k`, then Established up to position `n`. -/
+def Phases (cfg : Cfg) (h : List (Role × Ev)) (r : Role) (n : Nat) : State → Prop
+  | .openSent =>
+      ∃ i, ∃ hi : i < h.length, i < n ∧ h[i].1 = r ∧ (∃ b, evInput h[i].2 = .connected b) ∧
+        stateAt cfg h r i = .idle ∧ ∀ m, i < m → m ≤ n → stateAt cfg h r m = .openSent
+  | .openConfirm =>
+      ∃ i j, ∃ hi : i < h.length, ∃ hj : j < h.length, i < j ∧ j < n ∧
+        h[i].1 = r ∧ (∃ b, evInput h[i].2 = .connected b) ∧ stateAt cfg h r i = .idle ∧
+        (∀ m, i < m → m ≤ j → stateAt cfg h r m = .openSent) ∧
+        h[j].1 = r ∧ AcceptableOpen cfg h[j].2 ∧
+        ∀ m, j < m → m ≤ n → stateAt cfg h r m = .openConfirm
+  | .established =>
+      ∃ i j k, ∃ hi : i < h.length, ∃ hj : j < h.length, ∃ hk : k < h.length, i < j ∧ j < k ∧ k < n ∧
+        h[i].1 = r ∧ (∃ b, evInput h[i].2 = .connected b) ∧ stateAt cfg h r i = .idle ∧
+        (∀ m, i < m → m ≤ j → stateAt cfg h r m = .openSent) ∧
+        h[j].1 = r ∧ AcceptableOpen cfg h[j].2 ∧
+        (∀ m, j < m → m ≤ k → stateAt cfg h r m = .openConfirm) ∧
+        h[k].1 = r ∧ evInput h[k].2 = .msg .keepalive ∧
+        ∀ m, k < m → m ≤ n → stateAt cfg h r m = .established
+  | _ => True
+
+theorem phases_all (cfg : Cfg) (h : List (Role × Ev)) (r : Role) :
+    ∀ n, n ≤ h.length → Phases cfg h r n (stateAt cfg h r n) := by
+  intro n
+  induction n with
+  | zero =>
+    intro _
+    have : stateAt cfg h r 0 = .idle := by
+      simp [stateAt, runFrom, Peer.init, Peer.state, Peer.connection]; cases r <;> rfl
+    rw [this]; trivial
+  | succ n ih =>
+    intro hn
+    have hlt : n < h.length := by omega
+    have ihn := ih (by omega)
+    obtain ⟨s1, s2, s3⟩ := stateAt_step cfg h r n hlt
+    cases hs : stateAt cfg h r (n + 1) with
+    | idle => trivial
+    | connect => trivial
+    | active => trivial
+    | openSent =>
+      rcases s3 hs with h0 | ⟨h0, h1, h2⟩
+      · rw [h0] at ihn
+        obtain ⟨i, hi, a1, a2, a3, a4, a5⟩ := ihn
+        refine ⟨i, hi, by omega, a2, a3, a4, fun m m1 m2 => ?_⟩
+        by_cases hm : m = n + 1
+        · rw [hm]; exact hs
+        · exact a5 m m1 (by omega)
+      · refine ⟨n, hlt, by omega, h1, h2, h0, fun m m1 m2 => ?_⟩
+        have : m = n + 1 := by omega
+        rw [this]; exact hs
+    | openConfirm =>
+      rcases s2 hs with h0 | ⟨h0, h1, h2⟩
+      · rw [h0] at ihn
+        obtain ⟨i, j, hi, hj, a1, a2, a3, a4, a5, a6, a7, a8, a9⟩ := ihn
+        refine ⟨i, j, hi, hj, a1, by omega, a3, a4, a5, a6, a7, a8, fun m m1 m2 => ?_⟩
+        by_cases hm : m = n + 1
+        · rw [hm]; exact hs
+        · exact a9 m m1 (by omega)
+      · rw [h0] at ihn
+        obtain ⟨i, hi, a1, a2, a3, a4, a5⟩ := ihn
+        refine ⟨i, n, hi, hlt, a1, by omega, a2, a3, a4, a5, h1, h2, fun m m1 m2 => ?_⟩
+        have : m = n + 1 := by omega
+        rw [this]; exact hs
+    | established =>
+      rcases s1 hs with h0 | ⟨h0, h1, h2⟩
+      · rw [h0] at ihn
+        obtain ⟨i, j, k, hi, hj, hk, a1, a2, a3, a4, a5, a6, a7, a8, a9, a10, a11, a12, a13⟩ := ihn
+        refine ⟨i, j, k, hi, hj, hk, a1, a2, by omega, a4, a5, a6, a7, a8, a9, a10, a11, a12,
+          fun m m1 m2 => ?_⟩
+        by_cases hm : m = n + 1
+        · rw [hm]; exact hs
+        · exact a13 m m1 (by omega)
+      · rw [h0] at ihn
+        obtain ⟨i, j, hi, hj, a1, a2, a3, a4, a5, a6, a7, a8, a9⟩ := ihn
+        refine ⟨i, j, n, hi, hj, hlt, a1, a2, by omega, a3, a4, a5, a6, a7, a8, a9, h1, h2,
+          fun m m1 m2 => ?_⟩
+        have : m = n + 1 := by omega
+        rw [this]; exact hs
 
 end Rbgp.Fsm
